@@ -198,6 +198,11 @@ pub struct FxSpec {
     /// the file order, whatever the hash seed.
     #[serde(default)]
     pub hand_edited_cache_until: Option<String>,
+    /// Every process starts from an EMPTY cache (so each downloads, as with a wiped ~/.acb) and runs
+    /// with the library's verbose flag on, whose lines go to standard output. (Cold and warm runs are
+    /// not compared under --verbose: "Fetching <url>" is printed by the run that downloads.)
+    #[serde(default)]
+    pub verbose_cold: bool,
 }
 
 pub fn d(y: i32, m: u8, day: u8) -> Date {
@@ -832,7 +837,7 @@ pub fn generate(seed: u64, k_seeds: usize) -> Sc {
         rateless.sort();
         rateless.dedup();
         let hand = if rateless.len() >= 2 && r.chance(1, 3) { Some(rateless[r.below(rateless.len() as u64 - 1) as usize].to_string()) } else { None };
-        Some(FxSpec { cal, format: crate::fx::gen_format(&mut r), published_today: r.chance(1, 2), hand_edited_cache_until: hand })
+        Some(FxSpec { cal, format: crate::fx::gen_format(&mut r), published_today: r.chance(1, 2), hand_edited_cache_until: hand.clone(), verbose_cold: hand.is_none() && Rng::new(crate::prng::mix(seed, 0x7E4B, 9)).chance(1, 3) })
     } else {
         None
     };
@@ -948,7 +953,21 @@ pub fn run_once_in(sc: &Sc, mode: Mode, hash_seed: u64, keep_cache: bool, boc: O
         }
         v.into_iter().collect()
     };
+    let verbose = sc.fx.as_ref().map(|f| f.verbose_cold).unwrap_or(false);
     let out = run_process(&env, move || {
+        // the library's verbose flag is a process-global: on for this simulated process only
+        struct VerboseGuard(bool);
+        impl Drop for VerboseGuard {
+            fn drop(&mut self) {
+                if self.0 {
+                    acb::log::set_verbose(false);
+                }
+            }
+        }
+        let _verbose_guard = VerboseGuard(verbose);
+        if verbose {
+            acb::log::set_verbose(true);
+        }
         // Seed-diversity probe: iteration order of a HashSet in this process.
         let hs: HashSet<&String> = probe_items.iter().collect();
         let perm: Vec<&str> = hs.iter().map(|s| s.as_str()).collect();
@@ -1496,7 +1515,11 @@ impl Engine for C09 {
                     st.bump("probe.output_dir_used_by_an_earlier_longer_run");
                     st.bump("fault.output_dir_holds_longer_files_of_an_earlier_run");
                 }
-                let out = run_once_in(sc, *mode, *hs, hi > 0 && boc.is_some(), boc.clone(), used);
+                let verbose_cold = sc.fx.as_ref().map(|f| f.verbose_cold).unwrap_or(false);
+                if verbose_cold && hi == 0 {
+                    st.bump("probe.look_up_input_run_cold_and_verbose_by_every_process");
+                }
+                let out = run_once_in(sc, *mode, *hs, hi > 0 && boc.is_some() && !verbose_cold, boc.clone(), used);
                 st.add("fault.legal_short_reads", out.short_reads);
                 if out.fs_faults_fired > 0 {
                     st.bump("fault.output_disk_full_in_every_process_of_the_input");
